@@ -49,6 +49,10 @@ pub struct Spec {
     /// Exec tier: "exec" = one exec per launch, "fork" = children of a fork server that stopped
     /// the real binary before its own initialisers (same code, ~10x the throughput).
     pub launcher: String,
+    /// In-process tier: "stages" = the library stages called directly (both commands observed
+    /// from one pass), "main" = additionally the repository's real `main.rs run` for the group's
+    /// command form, with its output captured at descriptor level.
+    pub mode: String,
 }
 
 impl Spec {
@@ -65,6 +69,7 @@ impl Spec {
                 Value::String(self.source.iter().map(|b| format!("{b:02x}")).collect()) },
             "plans": self.plans.iter().map(Plan::to_json).collect::<Vec<_>>(),
             "launcher": self.launcher,
+            "mode": self.mode,
         })
     }
     pub fn from_json(v: &Value) -> Option<Spec> {
@@ -84,6 +89,7 @@ impl Spec {
             source,
             plans: v.get("plans")?.as_array()?.iter().filter_map(Plan::from_json).collect(),
             launcher: v.get("launcher").and_then(Value::as_str).unwrap_or("exec").to_owned(),
+            mode: v.get("mode").and_then(Value::as_str).unwrap_or("stages").to_owned(),
         })
     }
 }
@@ -215,8 +221,10 @@ pub fn derive_spec(seed: u64, tier: Tier, idx: usize, corpus: &[String], shape: 
     let path_abs = rng.chance(1, 3);
     let plans = derive_plans(&mut rng, tier, shape.plans);
     let launcher = if tier == Tier::Exec && rng.chance(4, 5) { "fork" } else { "exec" };
+    let mode = if tier == Tier::InProc && rng.chance(2, 5) { "main" } else { "stages" };
     Spec {
         launcher: launcher.to_owned(),
+        mode: mode.to_owned(),
         tier,
         form,
         colour,
@@ -291,7 +299,14 @@ fn colour_override(colour: Colour) {
     }
 }
 
-fn obs_inproc(spec: &Spec, path: &str, plan: &Plan, step_budget: u64, orders: &mut Vec<String>) -> (LaunchObs, CallLog) {
+fn obs_inproc(
+    spec: &Spec,
+    path: &str,
+    capture_dir: &Path,
+    plan: &Plan,
+    step_budget: u64,
+    orders: &mut Vec<String>,
+) -> (LaunchObs, CallLog) {
     let Ok(source) = std::str::from_utf8(&spec.source) else {
         // `read_to_string` fails before any stage runs; mirror main's message shape minimally.
         return (
@@ -299,6 +314,37 @@ fn obs_inproc(spec: &Spec, path: &str, plan: &Plan, step_budget: u64, orders: &m
             CallLog::default(),
         );
     };
+    if spec.mode == "main" && sim_inproc::real_main_available() {
+        let check_only = spec.form == ArgvForm::Check;
+        return match sim_inproc::launch_main(path, source, check_only, capture_dir, plan, step_budget) {
+            Ok((o, real, log, launch_orders)) => {
+                for order in launch_orders {
+                    let s: Vec<String> = order.iter().map(ToString::to_string).collect();
+                    orders.push(format!("{}:{}", order.len(), s.join("")));
+                }
+                let mut fields = vec![
+                    ("stage".to_owned(), o.stage.clone()),
+                    ("errors".to_owned(), o.errors.join("\n\u{1e}\n")),
+                ];
+                match real {
+                    Some(r) => {
+                        fields.push(("status".to_owned(), r.status.to_string()));
+                        fields.push(("stdout".to_owned(), r.stdout));
+                        fields.push(("stderr".to_owned(), r.stderr));
+                    }
+                    None => fields.push(("capped".to_owned(), "step budget".to_owned())),
+                }
+                (LaunchObs { abnormal: None, fields }, log)
+            }
+            Err(msg) => (
+                LaunchObs {
+                    abnormal: None,
+                    fields: vec![("stage".to_owned(), "panic".to_owned()), ("errors".to_owned(), msg)],
+                },
+                CallLog::default(),
+            ),
+        };
+    }
     match sim_inproc::launch(path, source, plan, step_budget) {
         Ok((o, log, launch_orders)) => {
             for order in launch_orders {
@@ -356,11 +402,22 @@ pub fn run_spec(spec: &Spec, envs: &Envs, scratch_tag: &str, stop_at_first: bool
         }
     } else {
         colour_override(spec.colour);
+        if spec.mode == "main" && sim_inproc::real_main_available() {
+            // the real `run` reads the file itself; a relative path is resolved against the cwd
+            if let Err(e) = fs::create_dir_all(&dir)
+                .and_then(|()| fs::write(dir.join(&spec.file_name), &spec.source))
+                .and_then(|()| std::env::set_current_dir(&dir))
+            {
+                out.status = "harness_error".to_owned();
+                out.note = format!("scratch {dir:?}: {e}");
+                return out;
+            }
+        }
     }
 
     for (i, plan) in spec.plans.iter().enumerate() {
         let (obs, log) = match spec.tier {
-            Tier::InProc => obs_inproc(spec, &path_arg, plan, envs.step_budget, &mut out.orders),
+            Tier::InProc => obs_inproc(spec, &path_arg, &dir, plan, envs.step_budget, &mut out.orders),
             Tier::Exec => {
                 let launched = if spec.launcher == "fork" {
                     sim_exec::launch_forked(&envs.exec, &envs.exec.gram, &spec.form.argv(&path_arg), &dir, &dir, spec.colour, plan, &format!("l{i}"))
@@ -424,6 +481,9 @@ pub fn run_spec(spec: &Spec, envs: &Envs, scratch_tag: &str, stop_at_first: bool
     }
 
     if spec.tier == Tier::Exec {
+        let _ = fs::remove_dir_all(&dir);
+    } else if spec.mode == "main" && sim_inproc::real_main_available() {
+        let _ = std::env::set_current_dir(&envs.work);
         let _ = fs::remove_dir_all(&dir);
     }
     if out.status == "ok" {
@@ -490,7 +550,14 @@ pub fn classify(spec: &Spec, reference: &LaunchObs) -> (String, bool) {
             // `check` and `run` print the same diagnostics up to the evaluator: count them once
             let c = reference.field("check_stderr");
             let r = reference.field("run_stderr");
-            if c == r { c.to_owned() } else { format!("{c}\n{r}") }
+            let m = reference.field("stderr");
+            if !m.is_empty() {
+                m.to_owned()
+            } else if c == r {
+                c.to_owned()
+            } else {
+                format!("{c}\n{r}")
+            }
         }
         Tier::Exec => reference.field("stderr").to_owned(),
     };
@@ -507,7 +574,12 @@ pub fn classify(spec: &Spec, reference: &LaunchObs) -> (String, bool) {
     }
     if diag == 0 {
         let out = match spec.tier {
-            Tier::InProc => format!("{}{}", reference.field("check_stdout"), reference.field("run_stdout")),
+            Tier::InProc => format!(
+                "{}{}{}",
+                reference.field("check_stdout"),
+                reference.field("run_stdout"),
+                reference.field("stdout")
+            ),
             Tier::Exec => reference.field("stdout").to_owned(),
         };
         let rich = out.contains("->") || out.contains("=>") || out.contains('_');
